@@ -27,7 +27,7 @@ class CssHeaderParser(BaseHeaderParser):
     """Extracts and parses CSS file headers from block comments."""
 
     # Pattern to match JSDoc-style comment, allowing @charset before
-    JSDOC_PATTERN = re.compile(r'^(?:@charset\s+"[^"]+"\s*;\s*)?\s*/\*\*\s*(.*?)\s*\*/', re.DOTALL)
+    JSDOC_PATTERN = re.compile(r'^(?:@charset\s+"[^"]+"\s*;\s*)?\s*/\*\*(.*?)\*/', re.DOTALL)
 
     def extract_header(self, code: str) -> str | None:
         """Extract JSDoc-style comment from CSS code.
@@ -46,7 +46,7 @@ class CssHeaderParser(BaseHeaderParser):
             return None
 
         # Extract and clean the content
-        comment_content = match.group(1)
+        comment_content = match.group(1).strip()
         return self._clean_comment_content(comment_content)
 
     def _clean_comment_content(self, content: str) -> str:
